@@ -199,21 +199,38 @@ func buildPool(thorough bool) {
 	imp("empty-raw", "balanced", 0, 4, 2, true)
 	imp("single-pb", "balanced", 5, 8, 2, false)
 	imp("single-raw", "balanced", 5, 8, 2, true)
-	imp("balanced-w2", "balanced", 14, 3, 2, false)     // 5 leaves, depth 3, ragged tail
-	imp("balanced-raw-w3", "balanced", 11, 2, 3, true)  // 6 raw leaves
-	imp("trickle-w2", "trickle", 17, 2, 2, false)       // 9 leaves, nested sub-tries
-	imp("trickle-raw-w2", "trickle", 13, 3, 2, true)    // 5 raw leaves
+	imp("balanced-w2", "balanced", 14, 3, 2, false)    // 5 leaves, depth 3, ragged tail
+	imp("balanced-raw-w3", "balanced", 11, 2, 3, true) // 6 raw leaves
+	imp("trickle-w2", "trickle", 17, 2, 2, false)      // 9 leaves, nested sub-tries
+	imp("trickle-raw-w2", "trickle", 13, 3, 2, true)   // 5 raw leaves
+	imp("balanced-w3", "balanced", 22, 4, 3, false)    // 6 leaves, 3 levels
+	imp("trickle-w2-deep", "trickle", 25, 2, 2, false) // 13 leaves: depth-2 sub-tries
 	// modifier products
 	modf("mod-overwrite-append", "trickle", 12, 3, 2, false, 4, []edit{{"writeat", 4, X(3)}, {"writeat", 12, X(5)}, {"truncate", 15, nil}})
 	modf("mod-trunc-boundary", "trickle", 12, 3, 2, false, 3, []edit{{"truncate", 6, nil}})
 	modf("mod-sparse", "trickle", 0, 3, 2, false, 3, []edit{{"writeat", 5, X(2)}})
 	modf("mod-raw-append", "balanced", 6, 8, 2, true, 4, []edit{{"writeat", 6, X(5)}})
+	modf("mod-raw-overwrite", "trickle", 13, 3, 2, true, 3, []edit{{"writeat", 2, X(5)}, {"writeat", 11, X(1)}})
 	modf("mod-inline-append", "balanced", 6, 8, 2, false, 4, []edit{{"writeat", 6, X(5)}})
 	if thorough {
 		imp("balanced-w2-deep", "balanced", 33, 2, 2, false) // 17 leaves, depth 6
 		imp("trickle-w3-deep", "trickle", 41, 2, 3, true)    // 21 leaves
 		modf("mod-trunc-to-zero", "trickle", 12, 3, 2, false, 3, []edit{{"truncate", 0, nil}})
 		modf("mod-trunc-then-grow", "trickle", 17, 2, 2, false, 2, []edit{{"truncate", 7, nil}, {"writeat", 9, X(4)}})
+		// systematic family: layout x width x leaf type x size (chunk 3)
+		for _, layout := range []string{"balanced", "trickle"} {
+			for _, w := range []int{2, 3, 4, 8} {
+				for _, raw := range []bool{false, true} {
+					for _, sz := range []int{1, 3, 4, 9, 16, 27} {
+						lt := "pb"
+						if raw {
+							lt = "raw"
+						}
+						imp(fmt.Sprintf("fam-%s-w%d-%s-%d", layout, w, lt, sz), layout, sz, 3, w, raw)
+					}
+				}
+			}
+		}
 		// one realistic-size file with the default chunker and fan-out
 		data := pattern(3*256*1024 + 17)
 		nd, err := importFile(ds, "balanced", data, 256*1024, h.DefaultLinksPerBlock, true)
